@@ -598,6 +598,15 @@ def cases(tier, rng):
             yield 'nilsimsa %d %s' % (t, hx(rb(n) if n % 2 else tx(n))), 'nilsimsa.short'
         yield 'nilsimsa %d %s' % (t, hx(bytes([7]) * 50)), 'nilsimsa.uniform'
         yield 'nilsimsa %d %s' % (t, hx(few(2, 300))), 'nilsimsa.uniform'
+    # long inputs: counters beyond 2^8 and 2^16 (a single repeated byte puts every trigram of a window into few buckets),
+    # TLSH data lengths beyond 2^16 likewise
+    yield 'nilsimsa 53 %s' % hx(b'A' * 300), 'nilsimsa.long'
+    yield 'nilsimsa 53 %s' % hx(b'A' * 66000), 'nilsimsa.long'
+    yield 'nilsimsa 17 %s' % hx((b'ab' * 35000)[:69001]), 'nilsimsa.long'
+    if not quick:
+        yield 'nilsimsa 200 %s' % hx(bytes([0]) * 140000), 'nilsimsa.long'
+        yield 'nilsimsa 53 %s' % hx(rb(100000)), 'nilsimsa.long'
+    yield 'tlsh 128 5 1 F %s' % hx(tx(70000)), 'tlsh.long'
     for _ in range(150 if quick else 3000):
         t = rng.choice([53, 53, rng.randrange(256), rng.randrange(256)])
         n = rng.choice([rng.randrange(0, 40), rng.randrange(40, 600), rng.randrange(600, 4000)])
